@@ -622,6 +622,21 @@ func (e *Env) call(n *ast.CallExpr) *Val {
 			}
 			return boolVal(fmt.Sprintf("(exists ((%s Int)) %s)", qv, body.Term))
 		}
+		if ok && len(n.Args) == 3 {
+			// typed unbounded form: forall(x, T, body) with T a pointer or map type: x ranges over the
+			// objects of that type that exist in the current state (non-nil references below the allocation frontier)
+			t := e.typeExpr(n.Args[1])
+			c.nsym++
+			qv := fmt.Sprintf("q_%s_%d", id.Name, c.nsym)
+			c.quant++
+			body := e.with(id.Name, &Val{T: t, Term: qv}).eval(n.Args[2])
+			c.quant--
+			rng := and(app("<", "0", qv), app("<", qv, c.next(e.st)))
+			if fname == "forall" {
+				return boolVal(fmt.Sprintf("(forall ((%s Int)) %s)", qv, implies(rng, body.Term)))
+			}
+			return boolVal(fmt.Sprintf("(exists ((%s Int)) %s)", qv, and(rng, body.Term)))
+		}
 		if !ok || len(n.Args) != 4 {
 			fail("%s(i, lo, hi, body)", fname)
 		}
@@ -858,6 +873,8 @@ func (e *Env) typeExpr(x ast.Expr) types.Type {
 		if n.Len == nil {
 			return types.NewSlice(e.typeExpr(n.Elt))
 		}
+	case *ast.MapType:
+		return types.NewMap(e.typeExpr(n.Key), e.typeExpr(n.Value))
 	case *ast.SelectorExpr:
 		if id, ok := n.X.(*ast.Ident); ok && pkg != nil {
 			for _, imp := range pkg.Pkg.Imports() {
